@@ -6,7 +6,7 @@ git -C /repo diff --quiet || { echo "/repo has uncommitted changes; aborting"; e
 pass=0; fail=0
 for d in seeded/*/; do
   id=$(basename $d)
-  prop=$(python3 -c "import json;print(json.load(open('$d/meta.json'))['breaks_property'])")
+  prop=$(python3 -c "import json;m=json.load(open('$d/meta.json'));print(m.get('detect_with') or m['breaks_property'])")
   if ! git -C /repo apply --check /verif/$d/patch.diff 2>/dev/null; then echo "$id: PATCH DOES NOT APPLY"; fail=$((fail+1)); continue; fi
   git -C /repo apply /verif/$d/patch.diff
   s=$(date +%s); out=$(./check $prop --tier quick 2>&1); code=$?; e=$(date +%s)
